@@ -409,6 +409,15 @@ type WChain0 struct {
 	V int64      `json:"v"`
 }
 
+// WMany: small records, a few thousand of them in one file (whatever a reader recycles per so-many records)
+type WMany struct {
+	P *int64           `json:"p"`
+	L []int64          `json:"l"`
+	S string           `json:"s"`
+	M map[string]int64 `json:"m"`
+	Q int64            `json:"q"`
+}
+
 // WFixedWidth: every field has a constant encoded width
 type WFixedInner struct {
 	X float64 `json:"x"`
@@ -532,6 +541,17 @@ func witnessCases() []witness {
 			z := int64(0)
 			return vals(WOmitColl{L: []null.Int{null.IntFrom(0), null.IntFrom(5), {}}, M: map[string]null.String{"a": null.StringFrom(""), "b": null.StringFrom("x"), "c": {}}, LP: []*int64{&z, nil, &z}, LS: []string{"", "x", ""}, Q: 1},
 				WOmitColl{Q: 2}, WOmitColl{L: []null.Int{null.IntFrom(0)}, LS: []string{""}, Q: 3})(c)
+		}},
+		{staticOf[WMany]("thousands-of-small-records"), func(c *driverCtx) []reflect.Value {
+			out := make([]WMany, 2100)
+			for i := range out {
+				out[i].Q = int64(i)
+				if i%3 == 0 { // (a period that does not divide any power of two: record i and record i+1024 differ in kind)
+					v := int64(i * 7)
+					out[i] = WMany{P: &v, L: []int64{int64(i), int64(i + 1)}, S: fmt.Sprint("s", i), M: map[string]int64{fmt.Sprint("k", i): int64(i)}, Q: int64(i)}
+				}
+			}
+			return vals(out...)(c)
 		}},
 		{staticOf[WChain0]("ten-record-types-chained"), func(c *driverCtx) []reflect.Value {
 			mk := func(k int64) WChain0 {
